@@ -47,9 +47,20 @@ def job(spec):
         if g.get("pulse"):                       # strictly periodic pulse train on a flat baseline
             data[:] = 10
             data[g["pulse"]::g["pn"], :] = 150
-        p = d / f"c11_{spec['id']}_{gi}.fil"
-        fixtures.write_fil(p, data.ravel(), C, 8 if C > 1 else 32, fch1=8.0, foff=-1.0, tsamp=TSAMP)
-        fil = FilReader(str(p))
+        nb = 32 if (C == 1 or gi % 3 == 2) else 8
+        if nb == 32:                              # float samples are signed: a cell mean may be negative or exactly zero
+            data = data - 100
+        # every other geometry is stored as a contiguous set of three files (folding rewinds by the maximum delay between gulps:
+        # the rewind then lands in another file than the one being read)
+        if gi % 2 == 1 and N >= 12:
+            a1 = int(rng.integers(1, N // 2))
+            a2 = int(rng.integers(a1 + 1, N - 1))
+            names = fixtures.write_set(d, f"c11_{spec['id']}_{gi}", data, nb, [a1, a2 - a1, N - a2], fch1=8.0, foff=-1.0, tsamp=TSAMP)
+            fil = FilReader(names)
+        else:
+            p = d / f"c11_{spec['id']}_{gi}.fil"
+            fixtures.write_fil(p, data.ravel(), C, nb, fch1=8.0, foff=-1.0, tsamp=TSAMP)
+            fil = FilReader(str(p))
         period = g["pn"] / g["pd"] * TSAMP
         accel = 2 * C_LIGHT * (g["kn"] / g["kd"]) / TSAMP
         dm = g["dm"]
@@ -78,7 +89,7 @@ def job(spec):
         def kern():
             fold_ar = np.zeros(g["nbins"] * g["nints"] * nb_eff, dtype=np.float32)
             count_ar = np.zeros(g["nbins"] * g["nints"] * nb_eff, dtype=np.int32)
-            arr = data.ravel().astype(np.uint8 if C > 1 else np.float32)
+            arr = data.ravel().astype(np.uint8 if nb == 8 else np.float32)
             kernels.fold(arr, fold_ar, count_ar, np.array(dl, dtype=np.int32), max(dl), TSAMP, period, accel, N, N, C,
                          g["nbins"], g["nints"], nb_eff, 0)
             return [{"meanq": 0, "nan": False, "sum": int(s), "count": int(c)} for s, c in zip(fold_ar, count_ar)]
